@@ -31,13 +31,20 @@ def expectedFinal (site : Option Site) (req : Request) : Option Resp :=
       match r.lookup req.code with
       | none => some { code := 133, payload := notAllowedDiag, noResponse := none }  -- 4.05
       | some (.returns (some c) p nr) =>
-        some { code := c, payload := p, noResponse := nr <|> req.noResponse }
+        -- a message whose code is no response code (a request code, 0.00, 7.xx, …) answers
+        -- nothing: it is as unusable as a value that is no message, bare 5.00
+        if 64 ≤ c ∧ c < 192 then some { code := c, payload := p, noResponse := nr <|> req.noResponse }
+        else some { code := 160, payload := [], noResponse := none }
       | some (.returns none p nr) =>
         -- "Content" for GET/FETCH, "Deleted" for DELETE, "Changed" for anything else
         some { code := (if req.code = 1 then 69 else if req.code = 5 then 69
                         else if req.code = 4 then 66 else 68),
                payload := p, noResponse := nr <|> req.noResponse }
-      | some (.raisesRenderable c d) => some { code := c, payload := d, noResponse := none }
+      | some (.raisesRenderable c d) =>
+        -- "a raised renderable error is sent with its own code and diagnostic payload"; one whose
+        -- rendering is no response is a failing error renderer
+        if 64 ≤ c ∧ c < 192 then some { code := c, payload := d, noResponse := none }
+        else some { code := 160, payload := [], noResponse := none }
       | some (.raisesOther _) => some { code := 160, payload := [], noResponse := none }
       | some (.returnsNonMessage _) => some { code := 160, payload := [], noResponse := none }
       | some (.rendererFails _ _) => some { code := 160, payload := [], noResponse := none }
@@ -46,6 +53,15 @@ def expectedFinal (site : Option Site) (req : Request) : Option Resp :=
 
 /-- the model's rendering path (`contextRender` → `siteRender` → `resourceRender`, the exception
 turned into a message by `excToMessage`) computes the table -/
+theorem isResponseCode_iff (c : Nat) : isResponseCode c = true ↔ (64 ≤ c ∧ c < 192) := by
+  simp [isResponseCode]
+
+theorem defaultCode_response (c : Nat) : isResponseCode (defaultCode c) = true := by
+  unfold defaultCode
+  split
+  · rfl
+  · split <;> rfl
+
 theorem finalOfRes_contextRender (site : Option Site) (req : Request) :
     finalOfRes (contextRender site req) = expectedFinal site req := by
   unfold contextRender expectedFinal
@@ -60,7 +76,8 @@ theorem finalOfRes_contextRender (site : Option Site) (req : Request) :
       by_cases hc : req.code = 0 ∨ 32 ≤ req.code
       · have : isRequestCode req.code = false := by
           simp only [isRequestCode, Bool.and_eq_false_iff, decide_eq_false_iff_not]; omega
-        simp [this, hc, finalOfRes, excToMessage]
+        simp only [this, Bool.not_false, ↓reduceIte, hc, finalOfRes]
+        rfl
       · have : isRequestCode req.code = true := by
           simp only [isRequestCode, Bool.and_eq_true, decide_eq_true_eq]; omega
         simp only [this, Bool.not_true, Bool.false_eq_true, ↓reduceIte, hc]
@@ -70,7 +87,15 @@ theorem finalOfRes_contextRender (site : Option Site) (req : Request) :
           cases o with
           | returns c p nr =>
             cases c with
-            | some c => cases nr <;> rfl
+            | some c =>
+              simp only [finalOfRes, Option.getD_some]
+              by_cases hr : isResponseCode c = true
+              · have hr' := (isResponseCode_iff c).1 hr
+                simp only [hr, ↓reduceIte, hr', and_self]
+                cases nr <;> rfl
+              · have hr' : ¬ (64 ≤ c ∧ c < 192) := fun h => hr ((isResponseCode_iff c).2 h)
+                simp only [hr, ↓reduceIte, hr']
+                rfl
             | none =>
               have hd : (if req.code = 1 then 69 else if req.code = 5 then 69
                   else if req.code = 4 then 66 else 68) = defaultCode req.code := by
@@ -80,9 +105,16 @@ theorem finalOfRes_contextRender (site : Option Site) (req : Request) :
                 · by_cases h5 : req.code = 5
                   · simp [h5]
                   · simp [h1, h5]
-              simp only [finalOfRes, Option.getD_none, hd]
+              simp only [finalOfRes, Option.getD_none, hd, defaultCode_response, ↓reduceIte]
               cases nr <;> rfl
-          | raisesRenderable c d => rfl
+          | raisesRenderable c d =>
+            simp only [finalOfRes, excToMessage]
+            by_cases hr : isResponseCode c = true
+            · have hr' := (isResponseCode_iff c).1 hr
+              simp only [hr, ↓reduceIte, hr', and_self]
+            · have hr' : ¬ (64 ≤ c ∧ c < 192) := fun h => hr ((isResponseCode_iff c).2 h)
+              simp only [hr, ↓reduceIte, hr']
+              rfl
           | raisesOther t => rfl
           | returnsNonMessage t => rfl
           | rendererFails b t => cases b <;> rfl
@@ -188,17 +220,29 @@ theorem C09_all_sends_final (site : Option Site) (ins : List In) :
     ∀ o ∈ (run (Sys.init site) ins).2, ∀ m l, o.eff = .send m l → l = true :=
   run_sends_final (init_good site) ins
 
+/-- **C09 (nothing but responses is ever sent).**  Whatever the handlers return or raise — a
+message with a request code, with code 0.00, with a signalling code; an error renderer producing
+such a message — every message the rendering side hands to the token interface in any schedule
+carries a response code (classes 2 to 5): nothing a handler does makes the server send a request
+or an empty message of its own on the client's token. -/
+theorem C09_sends_are_responses (site : Option Site) (ins : List In) :
+    ∀ o ∈ (run (Sys.init site) ins).2, ∀ m l, o.eff = .send m l → 64 ≤ m.code ∧ m.code < 192 :=
+  fun o ho m l h => (isResponseCode_iff m.code).1 (run_sends_response (init_good site) ins o ho m l h)
+
 /-- **C09 (bare 5.00, nothing of the exception leaks).**  When the handler reached by the
 request raises a non-renderable exception (also `CancelledError`), returns something that is not a
-message, or raises a renderable error whose renderer raises or returns `None`, the response of
-the table is 5.00 with an EMPTY payload and no options — the same for every exception text, every
-returned value, every method and every site. -/
+message or a message whose code is no response code, or raises a renderable error whose renderer
+raises, returns `None` or renders to something that is no response, the response of the table is
+5.00 with an EMPTY payload and no options — the same for every exception text, every returned
+value or payload, every method and every site. -/
 theorem C09_bare_500 (s : Site) (req : Request) (r : Resource) (o : Outcome)
     (hpath : s.resources.lookup req.path = some r)
     (hcode : 1 ≤ req.code ∧ req.code < 32)
     (hmeth : r.lookup req.code = some o)
     (hfail : (∃ t, o = .raisesOther t) ∨ (∃ t, o = .returnsNonMessage t) ∨
-             (∃ b t, o = .rendererFails b t) ∨ o = .raisesCancelled)
+             (∃ b t, o = .rendererFails b t) ∨ o = .raisesCancelled ∨
+             (∃ c p nr, o = .returns (some c) p nr ∧ ¬ (64 ≤ c ∧ c < 192)) ∨
+             (∃ c d, o = .raisesRenderable c d ∧ ¬ (64 ≤ c ∧ c < 192)))
     (i : Nat) (pre mid post : List In)
     (hpre : ∀ a ∈ pre, a.id ≠ i) (hmid : ∀ a ∈ mid, a ≠ .complete i ∧ a ≠ .stop i) :
     finalsOf i (run (Sys.init (some s)) (pre ++ .deliver i req :: (mid ++ .complete i :: post))).2 =
@@ -206,7 +250,13 @@ theorem C09_bare_500 (s : Site) (req : Request) (r : Resource) (o : Outcome)
   rw [C09_exactly_one_as_tabled _ _ _ _ _ _ hpre hmid]
   have hc : ¬ (req.code = 0 ∨ 32 ≤ req.code) := by omega
   simp only [expectedFinal, hpath, hc, ↓reduceIte, hmeth]
-  rcases hfail with ⟨t, rfl⟩ | ⟨t, rfl⟩ | ⟨b, t, rfl⟩ | rfl <;> rfl
+  rcases hfail with ⟨t, rfl⟩ | ⟨t, rfl⟩ | ⟨b, t, rfl⟩ | rfl | ⟨c, p, nr, rfl, hn⟩ | ⟨c, d, rfl, hn⟩
+  · rfl
+  · rfl
+  · rfl
+  · rfl
+  · simp only [hn, ↓reduceIte]; rfl
+  · simp only [hn, ↓reduceIte]; rfl
 
 /-- **C09 (no exception text leaks — non-interference).**  Replace every exception text, every
 wrongly returned value and every failing renderer's text in the site by the empty text: the
@@ -290,7 +340,12 @@ theorem C09_no_response_propagation (req : Request) (r : Resource) (c : Option N
   · simp only [resourceRender, hq, Bool.not_true, Bool.false_eq_true, ↓reduceIte, hr]
     refine ⟨_, rfl, rfl, ?_⟩
     cases nr <;> rfl
-  · intro e; cases e <;> rfl
+  · intro e
+    cases e with
+    | renderable c d => simp only [excToMessage]; split <;> rfl
+    | rendererRaises t => rfl
+    | rendererNone => rfl
+    | other t => rfl
 
 /-- **C09 (isolation, one step).**  A step for request `a.id` — whatever it is: a failing
 completion, a loss of interest, a delivery — leaves the whole state of every other request `j`
